@@ -102,6 +102,55 @@ def _run_worker(ob: Ob, twin: str | None, plain_cex: dict | None = None, wall: f
     return out
 
 
+def _req_of(ob: Ob, twin):
+    return {
+        "module": ob.module,
+        "factory": ob.factory,
+        "args": ob.args,
+        "kind": ob.kind,
+        "timeout": ob.timeout if twin is None else min(ob.timeout, 90.0),
+        "per_path_timeout": ob.per_path_timeout,
+        "twin": twin,
+        "replay": None,
+    }
+
+
+def _run_batch(tasks):
+    """tasks: list of (ob, twin) sharing module and kind; one worker process runs them in sequence (amortises ~5 s of imports)."""
+    reqs = [_req_of(o, tw) for o, tw in tasks]
+    env = dict(os.environ)
+    env["PYTHONPATH"] = f"{VERIF}:" + env.get("PYTHONPATH", "")
+    env["PYTHONDONTWRITEBYTECODE"] = "1"
+    env["PYTHONHASHSEED"] = "0"
+    env.setdefault("NUMBA_CACHE_DIR", str(VERIF / ".numba_cache"))
+    env.pop("VTWIN", None)
+    env.pop("VPLAIN", None)
+    wall = sum(r["timeout"] * 1.6 + 60 for r in reqs)
+    t0 = time.time()
+    outs = {}
+    try:
+        p = subprocess.run([PY, "-m", "vlib.worker"], input=json.dumps({"batch": reqs}), capture_output=True, text=True, timeout=wall, env=env, cwd=str(VERIF))
+        stdout, err = p.stdout, p.stderr
+        rc = p.returncode
+    except subprocess.TimeoutExpired as e:
+        stdout = e.stdout.decode() if isinstance(e.stdout, bytes) else (e.stdout or "")
+        err, rc = "wall timeout", -9
+    for line in stdout.splitlines():
+        if line.startswith("@@RESULT "):
+            try:
+                d = json.loads(line[len("@@RESULT "):])
+                outs[d["i"]] = d["out"]
+            except Exception:
+                pass
+    res = []
+    for i in range(len(reqs)):
+        if i in outs:
+            res.append(outs[i])
+        else:
+            res.append({"status": "inconclusive", "detail": f"worker died rc={rc} before this request finished: {(err or '')[-600:]}", "wall_s": round(time.time() - t0, 2)})
+    return res
+
+
 def source_hashes(files):
     res = {}
     for f in files:
@@ -174,16 +223,28 @@ def run_property(spec, tier: str, only: str | None = None, jobs: int = 16):
             tasks.append((o, tw))
     results = {}
 
-    # longest first
+    # longest first; batches share (module, kind) so one process amortises the import cost
     tasks.sort(key=lambda t: -(t[0].timeout if t[1] is None else 1))
+    bsize = max(1, min(6, len(tasks) // (jobs * 2)))
+    groups = {}
+    for t in tasks:
+        groups.setdefault((t[0].module, t[0].kind), []).append(t)
+    batches = []
+    for g in groups.values():
+        # deal round-robin so long obligations spread over batches
+        nb = max(1, (len(g) + bsize - 1) // bsize)
+        parts = [[] for _ in range(nb)]
+        for i, t in enumerate(g):
+            parts[i % nb].append(t)
+        batches.extend(parts)
 
-    def go(t):
-        o, tw = t
-        return t, _run_worker(o, tw)
+    def go(batch):
+        return batch, _run_batch(batch)
 
     with ThreadPoolExecutor(max_workers=jobs) as ex:
-        for (o, tw), r in ex.map(go, tasks):
-            results[(o.name, tw)] = r
+        for batch, outs in ex.map(go, batches):
+            for (o, tw), r in zip(batch, outs):
+                results[(o.name, tw)] = r
 
     violations, known_hits, report = [], [], []
     n_discharged = n_required = n_incon = 0
